@@ -274,10 +274,20 @@ def m_exp(x):
     return _uf("exp", x)
 
 
-@entry("jax.numpy.log", "math.log", tier="T2")
-def m_log(x):
+@entry("math.log", tier="T2")
+def m_mathlog(x):
     if _is_num(x):
         return math.log(x)
+    return _uf("log", x, lambda a: [("log", a > 0)])
+
+
+@entry("jax.numpy.log", tier="T2")
+def m_log(x):
+    if _is_num(x):
+        # keep log(c) symbolic so that exp(log c) = c stays available to the solver
+        if x <= 0:
+            raise Untranslatable("log of a non-positive constant")
+        return SV(V.UF["log"](lift(float(x))))
     return _uf("log", x, lambda a: [("log", a > 0)])
 
 
@@ -419,9 +429,18 @@ def m_asarray(x, dtype=None, **kw):
     return x
 
 
-@entry("jax.numpy.zeros", "jax.numpy.ones", "jax.numpy.empty")
+@entry("jax.numpy.zeros")
 def m_zeros(shape=(), dtype=None):
-    raise Untranslatable("jnp.zeros/ones/empty (needs a tensor-domain override)")
+    if shape == ():
+        return 0.0
+    raise Untranslatable("jnp.zeros of a non-scalar shape (needs a tensor-domain override)")
+
+
+@entry("jax.numpy.ones")
+def m_ones(shape=(), dtype=None):
+    if shape == ():
+        return 1.0
+    raise Untranslatable("jnp.ones of a non-scalar shape (needs a tensor-domain override)")
 
 
 @entry("jax.numpy.isnan")
